@@ -126,14 +126,92 @@ pub fn check_payload(r: &mut Report, p: &[u8; 7], origin: &str) {
     }
 }
 
+fn debug_of(bytes: &[u8]) -> Result<String, (String, String)> {
+    guarded(|| match Message::try_from(bytes) {
+        Ok(m) => format!("{m:?}"),
+        Err(e) => format!("Err({e})"),
+    })
+}
+
+/// "decoding the same bytes twice gives equal results" must not depend on what was decoded in between: decode f,
+/// then a sibling sharing most of its bits (header, payload or parity region flipped), then f again.
+fn check_context(r: &mut Report, rng: &mut Rng, f: &[u8]) {
+    if f.len() != 7 && f.len() != 14 {
+        return;
+    }
+    let df = f[0] >> 3;
+    // an unrelated frame of the same format first, so that `first` is not itself served from state left by a look-alike
+    let unrelated = |rng: &mut Rng| {
+        let mut x = rng.bytes(f.len());
+        x[0] = (df << 3) | (x[0] & 7);
+        if df == 17 {
+            x = crate::oracle::crc::seal(&x[..11], 0);
+        }
+        x
+    };
+    let _ = debug_of(&unrelated(rng));
+    let Ok(first) = debug_of(f) else { return };
+    for region in 0..3 {
+        let (lo, hi) = match region {
+            0 => (1, 4.min(f.len() - 3)),
+            1 => (4.min(f.len() - 3), f.len() - 3),
+            _ => (f.len() - 3, f.len()),
+        };
+        if lo >= hi {
+            continue;
+        }
+        let mut s = f.to_vec();
+        for _ in 0..rng.range(1, 3) {
+            let p = rng.range(lo as i64 * 8, hi as i64 * 8 - 1) as usize;
+            s[p / 8] ^= 1 << (7 - p % 8);
+        }
+        if df == 17 && region < 2 {
+            // keep the sibling acceptable: re-seal it
+            s = crate::oracle::crc::seal(&s[..11], 0);
+        }
+        r.evaluations += 1;
+        // unrelated, then the sibling (decoded on a clean slate), then f: any state keyed on what f and the sibling
+        // share, and filled by the sibling, now answers for f
+        let _ = debug_of(&unrelated(rng));
+        let _ = debug_of(&s);
+        match debug_of(f) {
+            Ok(again) if again == first => r.class("context:sibling-interleaved-same-result"),
+            Ok(again) => {
+                let i = first.bytes().zip(again.bytes()).position(|(a, b)| a != b).unwrap_or(0);
+                r.violation(
+                    &format!("C01:context-dependent:DF{df}"),
+                    format!("{} decodes differently after {} was decoded in between: ...{} vs ...{}", hexs(f), hexs(&s), &first[i.saturating_sub(30)..(i + 60).min(first.len())], &again[i.saturating_sub(30)..(i + 60).min(again.len())]),
+                    json!({"kind": "context", "frame": hexs(f), "sibling": hexs(&s)}),
+                );
+                return;
+            }
+            Err(_) => return,
+        }
+    }
+}
+
 pub fn run(a: &Args, r: &mut Report) {
-    r.rule = "cases: (a) random bytes of every length 0..=32; (b) structure-aware 7/14-byte frames for every DF 0..31 (DF17/18: every TC x subtype, sealed with the oracle CRC; AP formats; Comm-B payloads built per register hypothesis), fields boundary-biased; (c) 56-bit payloads offered directly to each of the 14 public register readers and through DF20/21; (d) thorough: exhaustive 16-bit windows slid over the ME of one base frame per type code. distinct_nontrivial = distinct byte strings that were ACCEPTED (hash set), plus distinct payloads offered to the register readers".into();
+    r.rule = "cases: (a) random bytes of every length 0..=32; (b) structure-aware 7/14-byte frames for every DF 0..31 (DF17/18: every TC x subtype, sealed with the oracle CRC; AP formats; Comm-B payloads built per register hypothesis), fields boundary-biased; (c) 56-bit payloads offered directly to each of the 14 public register readers and through DF20/21; (d) thorough: exhaustive 16-bit windows slid over the ME of one base frame per type code. every 8th structured frame is also decoded before and after a sibling frame that shares its header, payload or parity (results must not depend on what was decoded in between), and 3000 early frames are decoded again at the end of the shard; distinct_nontrivial = distinct byte strings that were ACCEPTED (hash set), plus distinct payloads offered to the register readers".into();
     r.assumptions.push("non-termination is detected by a 2 s per-call timer inside the shard plus the orchestrator's watchdog; a slow input is re-run alone before it is called a hang".into());
     let mut slow = vec![];
     if let Some(p) = &a.replay {
         let v: serde_json::Value = serde_json::from_str(&std::fs::read_to_string(p).unwrap()).unwrap();
         let rp = &v["replay"];
-        if rp["kind"] == "payload" {
+        if rp["kind"] == "context" {
+            let f = hex::decode(rp["frame"].as_str().unwrap()).unwrap();
+            let sib = hex::decode(rp["sibling"].as_str().unwrap()).unwrap();
+            let mut x = vec![0x55u8; f.len()];
+            x[0] = f[0];
+            let _ = debug_of(&x);
+            let first = debug_of(&f);
+            let _ = debug_of(&x);
+            let _ = debug_of(&sib);
+            let again = debug_of(&f);
+            r.evaluations += 1;
+            if first.ok() != again.ok() {
+                r.violation("C01:context-dependent:replay", format!("{} decodes differently after {}", hexs(&f), hexs(&sib)), rp.clone());
+            }
+        } else if rp["kind"] == "payload" {
             let b = hex::decode(rp["payload"].as_str().unwrap()).unwrap();
             let mut p = [0u8; 7];
             p.copy_from_slice(&b);
@@ -156,6 +234,7 @@ pub fn run(a: &Args, r: &mut Report) {
         check_bytes(r, &b, "random", &mut slow);
     }
     // (b) structured
+    let mut retained: Vec<(Vec<u8>, String)> = vec![];
     let n = a.budget(2_400_000, 160_000_000);
     for i in 0..n {
         let df = (i % 32) as u8;
@@ -163,6 +242,14 @@ pub fn run(a: &Args, r: &mut Report) {
         let df = if matches!(df, 1 | 2 | 3 | 6..=10 | 12..=15 | 22 | 23) && rng.chance(0.8) { *rng.pick(&[17u8, 17, 17, 18, 20, 21, 20, 21, 4, 5, 0, 16, 11]) } else { df };
         let f = common::structured(&mut rng, df);
         check_bytes(r, &f, "structured", &mut slow);
+        if i % 8 == 3 {
+            check_context(r, &mut rng, &f);
+        }
+        if retained.len() < 3000 && i % 5 == 0 {
+            if let Ok(d) = debug_of(&f) {
+                retained.push((f.clone(), d));
+            }
+        }
         // wrong lengths of a well-formed frame: truncated / extended
         if i % 16 == 0 {
             let mut g = f.clone();
@@ -178,6 +265,15 @@ pub fn run(a: &Args, r: &mut Report) {
                 }
             }
             check_bytes(r, &g, "structured-wrong-length", &mut slow);
+        }
+    }
+    // frames decoded early in the run must decode the same after millions of other frames
+    for (f, d) in &retained {
+        r.evaluations += 1;
+        match debug_of(f) {
+            Ok(again) if &again == d => r.class("context:redecoded-at-end-same-result"),
+            Ok(_) => r.violation(&format!("C01:history-dependent:DF{}", f[0] >> 3), format!("{} decodes differently at the end of the run than at its beginning", hexs(f)), json!({"kind": "frame", "frame": hexs(f), "origin": "retained"})),
+            Err(_) => {}
         }
     }
     // (c) payloads straight into the register readers
